@@ -446,14 +446,15 @@ def run_plan(ctx, pid, tier):
     skip_design = os.environ.get("C1_SKIP_DESIGN") == "1"   # mutation testing of /repo copies only: the design stage does not read /repo
     if skip_design:
         names, mf_inv_skip = [], True
-    futs = [(n, pool.submit(E.model_check, n, cfg_consts(n), inv)) for n in names]
+    tlc_timeout = 900 if quick else 3600
+    futs = [(n, pool.submit(E.model_check, n, cfg_consts(n), inv, 3, tlc_timeout)) for n in names]
     mf_consts = dict(W=5, Dict=3, Slots="{1,2}", Steps=(24 if quick else 34), NormKind='"%s"' % ab["NormKind"], MaxAge=(2 if quick else 3))
     mf_inv = {"C01": ["DeltaIsTrueDistance", "NoOverflow"], "C13": None, "C15": ["DeltaIsTrueDistance"]}[pid]
     mf_fut = None
     if mf_inv and not skip_design:
         def mfrun():
             d, mod, cfg = core.write_model("MatchFinderPos", {k: str(v) for k, v in mf_consts.items()}, invariants=mf_inv)
-            return core.run_tlc(mod, cfg, workers=3, cwd=d, timeout=1200)
+            return core.run_tlc(mod, cfg, workers=3, cwd=d, timeout=1200 if quick else 3600)
         mf_fut = pool.submit(mfrun)
     jobs, meta = [], []            # meta: (source, extra)
     design = {}
@@ -492,7 +493,7 @@ def run_plan(ctx, pid, tier):
             continue
         for n in (cfgs[:1] if quick else cfgs):
             c = E.scaled(**dict(E.SCALED_CFGS[n][0], **{flag: regressed, "N": 24}))
-            probes.append((n, f"{flag}={regressed}", pool.submit(E.model_check, n, c, pinv)))
+            probes.append((n, f"{flag}={regressed}", pool.submit(E.model_check, n, c, pinv, 3, tlc_timeout)))
     for n, flag, f in probes:
         r = f.result()
         ctx.add("regression_models_checked")
